@@ -42,6 +42,8 @@ contract("parglare.parser.Parser._token_recognition",
              "result[j].value == rec(k) and result[j].position == head.position))",
              # nothing matches  <=>  no token (no shortcut makes the scanner miss the input altogether)
              "(len(result) == 0) == (not exists(0, len(A()), lambda k: matched(k)))",
+             # the tokens are new objects
+             "forall(0, len(result), lambda j: fresh(result[j]) and live(result[j]))",
          ],
          modifies=[], macros=M,
          opaque={"SymS.recognizer": {"returns": "any", "pure": True}},
@@ -52,8 +54,42 @@ contract("parglare.parser.Parser._token_recognition",
              "forall(0, len(tokens), lambda j: exists(0, __i0, lambda k: tokens[j].symbol == A()[k] and matched(k) and "
              "tokens[j].value == rec(k) and tokens[j].position == head.position))",
              "(len(tokens) == 0) == (not exists(0, __i0, lambda k: matched(k)))",
+             "forall(0, len(tokens), lambda j: fresh(tokens[j]) and live(tokens[j]))",
          ]}},
          properties=("C07",),
          canaries=[("a-token-for-every-candidate", {"ensures": ["len(result) == len(A())"]})])
 
 SCANNER_C07 = ["parglare.parser.Parser._token_recognition"]
+
+# ---- Parser._next_tokens (C17 / C07): when is the end-of-input marker offered ------------------------------------------
+classes(
+    "parglare.parser",
+    ParserN=dict(bases=("ParserD",), fields={"consume_input": "bool", "custom_token_recognition": "any"}),
+)
+
+contract("parglare.parser.Parser._next_tokens@plain",
+         params={"self": "ref[ParserN]", "head": "ref[HeadS]"}, returns="list[ref[Tok]]",
+         requires=[
+             "not self.debug and not bool(self.custom_token_recognition)",
+             "allocated(head.state) and allocated(A()) and allocated(F()) and len(F()) == len(A())",
+             "forall(0, len(A()), lambda k: allocated(A()[k]))",
+             "allocated(STOP_token) and 0 <= head.position",
+         ],
+         ensures=[
+             # STOP is offered iff it is expected and (the input need not be consumed, or it is consumed)
+             "implies(not self.lexical_disambiguation, exists(0, len(result), lambda j: result[j] == STOP_token) == "
+             "(exists(0, len(A()), lambda k: A()[k] == STOP) and "
+             "(not self.consume_input or head.position == len(head.input_str))))",
+             # at (or past) the end of the input nothing is recognised: tokens cannot be empty
+             "implies(not self.lexical_disambiguation and head.position >= len(head.input_str), "
+             "forall(0, len(result), lambda j: result[j] == STOP_token))",
+             # the head is not moved
+             "head.position == old(head.position)",
+         ],
+         modifies=[], macros=M,
+         globals={"STOP": ("ref[SymS]", None), "STOP_token": ("ref[Tok]", None)},
+         opaque={"SymS.recognizer": {"returns": "any", "pure": True}},
+         locals={"tokens": "list[ref[Tok]]", "actions": "list[ref[SymS]]"},
+         properties=("C17", "C07", "C11"))
+
+SCANNER_C17 = ["parglare.parser.Parser._next_tokens@plain"]
